@@ -91,7 +91,7 @@ impl FileTimes {
     pub fn set_modified(self, t: SystemTime) -> (r: FileTimes) ensures r.m@ == Some(t.t()), r.a@ == self.a@ { FileTimes { a: self.a, m: Ghost(Some(t.t())) } }
 }
 
-pub mod fs {
+pub mod fs_filetype {
     use super::*;
     /// std::fs::FileType
     #[verifier::external_body]
